@@ -135,6 +135,7 @@ def validate_traces(rep, traces, scripts, pid, flags_of_interest, tag):
                     sig["scheduler"] = scripts[k]["scheduler"]
                     if f == "unexpected_exception" and scripts[k].get("end_msg"):
                         sig["exc"] = scripts[k]["end_msg"].split("(")[0]
+                        sig["msg"] = scripts[k]["end_msg"][:60]
                     if "resume_failed_run" in v.flags:
                         # the scheduler resumed a FAILED trial: everything the monitor reports for this run afterwards
                         # follows from that illegal resume (known finding F09 when the scheduler is synchronous Hyperband)
